@@ -103,6 +103,14 @@ def stepLineRaw (st : HState) (line : String) : HState × List String :=
     match r.toNat?, parseOp rest with
     | some r, some op => guarded st r op
     | _, _ => (st, ["bad-op"])
+  | "W" :: rest =>
+    -- a version written by another implementation lands on the server; its operations need not be
+    -- valid where they stand (a redundant Create): outside the hypotheses of the C01 theorems,
+    -- inside the correspondence — applying an invalid operation changes nothing
+    let ops := (splitOps rest).filterMap parseOp
+    let st := st.note ops
+    let S := st.sys
+    ({ st with sys := { S with chain := S.chain ++ [ops] } }, [s!"foreign v{S.chain.length + 1}"])
   | "X" :: r :: _ :: rest =>
     match r.toNat? with
     | some r =>
